@@ -359,6 +359,26 @@ func numberLV(c *Comp) (LV, bool) {
 	return LV{}, false
 }
 
+// integerLV: <integer> — decimal digits with an optional sign; 1e3 and 1.0 are numbers, not integers.
+func integerLV(c *Comp) (LV, bool) {
+	if c.Kind != KNumber {
+		return LV{}, false
+	}
+	n := c.Num
+	if len(n) > 0 && (n[0] == '+' || n[0] == '-') {
+		n = n[1:]
+	}
+	if n == "" {
+		return LV{}, false
+	}
+	for i := 0; i < len(n); i++ {
+		if n[i] < '0' || n[i] > '9' {
+			return LV{}, false
+		}
+	}
+	return s("n" + numCanon(c.Num)), true
+}
+
 // colorLV: <color> of the oracle's grammar.
 func colorLV(c *Comp) (LV, bool) {
 	col, key, ok := isColorComp(c)
